@@ -69,6 +69,11 @@ Boolean Double2IBMFloat(Word* pDest, double Src, Boolean ToDouble) {
     Fraction = (Fraction << 8) | Buf[6];
     Fraction = (Fraction << 8) | Buf[7];
 
+    /* the base-16 normalization below shifts up to four bits out of the mantissa:
+       keep room for them, IBM double precision has space for all 53 bits */
+
+    Fraction <<= 4;
+
     /* (1e) if not denormal, make leading one of mantissa explicit: */
 
     if (Exponent != -1023) {
@@ -84,7 +89,7 @@ Boolean Double2IBMFloat(Word* pDest, double Src, Boolean ToDouble) {
 
     while ((Mantissa & 0x10000000ul) || (Exponent & 3)) {
         if (Mantissa & 1) {
-            Fraction |= 0x1000000ul;
+            Fraction |= 0x10000000ul;
         }
         Mantissa >>= 1;
         Fraction >>= 1;
@@ -163,12 +168,12 @@ Boolean Double2IBMFloat(Word* pDest, double Src, Boolean ToDouble) {
         pDest[0] = (Sign << 15) | ((Exponent << 8) & 0x7f00) | ((Mantissa >> 20) & 0xff);
         pDest[1] = (Mantissa >> 4) & 0xffff;
 
-        /* IBM format has four mantissa bits more than IEEE double, so the 4 LSBs
-           remain zero: */
+        /* IBM format has four mantissa bits more than IEEE double, they take up
+           the bits shifted out above: */
 
         if (ToDouble) {
-            pDest[2] = ((Mantissa & 15) << 12) | ((Fraction >> 12) & 0x0fff);
-            pDest[3] = (Fraction & 0x0fff) << 4;
+            pDest[2] = ((Mantissa & 15) << 12) | ((Fraction >> 16) & 0x0fff);
+            pDest[3] = Fraction & 0xffff;
         }
         return True;
     }
